@@ -24,6 +24,7 @@ class Ctx:
         self.classes = seen
         self.concrete = [c for c in seen if getattr(self.M, c.__name__, None) is c and c.__name__.isupper()]
         self.byname = {c.__name__: c for c in seen}
+        self.hooked = {r["name"] for r in self.d["raw"] if r.get("hook") is not None}      # classes with a validate_args hook of their own
         self.handles = {}      # canonical python value -> N
         self.rev_handles = {}
 
